@@ -186,6 +186,20 @@ def _b_body(i, col):
     got = st[2][col].token.encoding
     check(got == s, f'cell {s!r} was read as {got!r}')
     check(st[3][1 - col].token.encoding == '4d', f'cell {s!r}: following line mis-aligned')
+    # the file reader takes the same text the same way (blank lines included)
+    import os
+    import tempfile
+    from sv.ref.snap import snap, diff
+    text2 = text.replace('*-\t*-\n', '\n*-\t*-\n\n')
+    fd, path = tempfile.mkstemp(suffix='.krn', dir=os.environ.get('VERIF_TMP'))
+    try:
+        with os.fdopen(fd, 'w', encoding='utf-8', newline='') as f:
+            f.write(text2)
+        fdoc, ferrs = kp.load(path)
+    finally:
+        os.unlink(path)
+    sdoc, serrs = kp.loads(text2)
+    check(diff(snap(fdoc), snap(sdoc)) == '' and len(ferrs) == len(serrs), f'cell {s!r}: load(file) differs from loads(text) (blank lines in the text): {diff(snap(fdoc), snap(sdoc))}')
     return True
 
 
@@ -217,7 +231,22 @@ def _c_body(n, w, split, kind):
     try:
         doc, errs = kp.loads(text)
     except Exception:
-        return True                      # rejected: fine for w > live, merely recorded for w < live
+        # rejected: fine for w > live, merely recorded for w < live.  The rejection must not leave anything behind: the next import
+        # of a valid text builds exactly the tree of the model
+        heads2 = ('**kern', '**text')
+        lay = (('*^', '*'), ('*v', '*v', '*'))
+        rows2 = sp.build_rows(list(heads2), lay)
+        doc2, errs2 = kp.loads(sp.to_text(rows2))
+        check(not errs2, 'errors in the import that follows a rejected import')
+        _check_tree(doc2, rows2, sp.analyse(rows2))
+        reach = 0
+        stack = [doc2.tree.root]
+        while stack:
+            n = stack.pop()
+            reach += 1
+            stack.extend(n.children)
+        check(reach == 1 + sum(len(r) for r in rows2), f'after a rejected import only {reach - 1} of {sum(len(r) for r in rows2)} cells are reachable from the root of the next document')
+        return True
     check(w <= live, f'a {k} line with {w} cells for {live} live spine paths was accepted: {text!r}')
     return True
 
